@@ -34,6 +34,7 @@ func init() {
 }
 
 func runC05(w *World, r *Report) {
+	hrResponseNilGuard(w, r, "R5")
 	hrParseHeaders(w, r, "R5")
 	hrExtractKeyValuePair(w, r, "R2")
 	// R1
